@@ -101,15 +101,15 @@ theorem foldl_deleteSub (xs : List Sub) : ∀ st : State,
       simp only [deleteSub, hx]
       apply State.ext <;> try rfl
       funext d
-      simp [List.filter_cons, hx]
+      simp [hx]
     | some d0 =>
       simp only [deleteSub, hx]
       apply State.ext <;> try rfl
       funext d
       by_cases h : d = d0
-      · subst h; simp [List.filter_cons, hx, upd]
+      · subst h; simp [hx, upd]
       · have h' : ¬ (d0 = d) := fun e => h e.symm
-        simp [List.filter_cons, hx, upd, h, h']
+        simp [hx, upd, h, h']
 
 /-- `SubsetGroup._remove_data` with the fix, in closed form. -/
 theorem removeDataH_fixed (g d : Nat) (st : State) :
@@ -239,9 +239,9 @@ theorem foldl_register2 (pairs : List (Nat × Sub)) : ∀ st : State,
     apply State.ext <;> try rfl
     funext d
     by_cases h : d = p.1
-    · subst h; simp [upd, List.filter_cons]
+    · subst h; simp [upd]
     · have h' : ¬ (p.1 = d) := fun e => h e.symm
-      simp [upd, List.filter_cons, h, h']
+      simp [upd, h, h']
 
 /-- `new_subset_group()` in closed form. -/
 theorem newGroup_eq (st : State) :
@@ -658,7 +658,7 @@ theorem find?_unique {α : Type} (p : α → Bool) (a : α) : ∀ l : List α, a
     by_cases hb : p b = true
     · have := hu b (List.mem_cons_self ..) hb
       subst this
-      simp [List.find?_cons, hb]
+      simp [hb]
     · have hb' : p b = false := by simpa using hb
       rcases List.mem_cons.1 hm with rfl | hm'
       · exact absurd hp hb
@@ -792,5 +792,81 @@ theorem inv_run (ops : List Op) : ∀ st : State, Inv st → Inv (run true st op
   induction ops with
   | nil => intro st h; exact h
   | cons op ops ih => intro st h; exact ih _ (inv_step st op h)
+
+/-! ## 5. `Inv` implies the executable Spec predicate -/
+
+theorem dataOk_of_inv {st : State} (h : Inv st) (d : Nat) (hd : d ∈ st.datasets) : dataOk st d = true := by
+  unfold dataOk
+  simp only [Bool.and_eq_true, List.all_eq_true, beq_iff_eq, List.contains_eq_mem, decide_eq_true_eq]
+  refine ⟨?_, ?_⟩
+  · intro g hg
+    exact filter_length_one (fun s : Sub => s.group) _ _ (h.dataGroups d hd) h.nodupG g hg
+  · intro s hs
+    exact ⟨mem_groups_of_attached h hd hs, h.subData d s hs⟩
+
+theorem groupOk_of_inv {st : State} (h : Inv st) (g : Nat) (hg : g ∈ st.groups) : groupOk st g = true := by
+  unfold groupOk
+  simp only [Bool.and_eq_true, List.all_eq_true, List.any_eq_true, beq_iff_eq, List.contains_eq_mem,
+    decide_eq_true_eq, Bool.or_eq_true, bne_iff_ne, ne_eq]
+  refine ⟨⟨?_, ?_⟩, ?_⟩
+  · intro s hs
+    refine ⟨h.subGroup g s hs, ?_⟩
+    have h1 : s.data ∈ (st.gsubs g).map (·.data) := List.mem_map.2 ⟨s, hs, rfl⟩
+    rw [h.groupDatas g hg] at h1
+    obtain ⟨d, hd, hsd⟩ := List.mem_map.1 h1
+    exact ⟨d, hd, hsd.symm, h.groupAttached g hg s hs d hsd.symm⟩
+  · intro d hd s hs
+    by_cases hsg : s.group = g
+    · right; exact hsg ▸ h.attachedListed d hd s hs
+    · left; exact hsg
+  · have := congrArg List.length (h.groupDatas g hg)
+    simpa using this
+
+theorem removedGroupOk_of_inv {st : State} (h : Inv st) (g : Nat) : removedGroupOk st g = true := by
+  unfold removedGroupOk
+  by_cases hg : g ∈ st.groups
+  · simp [hg, h.subsEq]
+  · simp only [List.contains_eq_mem, hg, decide_false, Bool.false_eq_true, if_false, h.subsEq,
+      Bool.not_false, Bool.true_and, List.all_eq_true, Bool.not_eq_true', decide_eq_false_iff_not]
+    intro s hs d _ hsd
+    have hd := mem_datasets_of_attached h hsd
+    have h1 := mem_groups_of_attached h hd hsd
+    rw [h.subGroup g s hs] at h1
+    exact hg h1
+
+theorem readsOk_of_inv {st : State} (h : Inv st) : readsOk st (modelReads st) = true := by
+  unfold readsOk
+  simp only [List.all_eq_true, Bool.and_eq_true, List.any_eq_true, beq_iff_eq, Bool.or_eq_true,
+    bne_iff_ne, ne_eq]
+  intro g hg s hs
+  refine ⟨?_, ?_⟩
+  · refine ⟨⟨s, readSub st s, true⟩, ?_, rfl⟩
+    unfold modelReads
+    refine List.mem_map.2 ⟨s, ?_, rfl⟩
+    unfold allSubs
+    refine List.mem_append_right _ (List.mem_flatMap.2 ⟨g, ?_, hs⟩)
+    exact List.mem_range.2 (h.gBound g hg)
+  · intro r hr
+    unfold modelReads at hr
+    obtain ⟨s', _, rfl⟩ := List.mem_map.1 hr
+    by_cases hss : s' = s
+    · right
+      subst hss
+      simp [readSub, h.subGroup g s' hs]
+    · left; exact hss
+
+/-- The inductive invariant implies the property predicate that the driver evaluates. -/
+theorem specOk_of_inv (st : State) (h : Inv st) : specOk st (modelReads st) = true := by
+  unfold specOk
+  simp only [Bool.and_eq_true, decide_eq_true_eq, List.all_eq_true]
+  refine ⟨⟨⟨⟨⟨⟨⟨⟨h.nodupD, h.nodupG⟩, h.dBound⟩, h.gBound⟩, ?_⟩, ?_⟩, ?_⟩, ?_⟩, readsOk_of_inv h⟩
+  · intro d hd; exact dataOk_of_inv h d hd
+  · intro g hg; exact groupOk_of_inv h g hg
+  · intro d _
+    unfold removedDataOk
+    by_cases hd : d ∈ st.datasets
+    · simp [hd]
+    · simp [hd, h.removedEmpty d hd]
+  · intro g _; exact removedGroupOk_of_inv h g
 
 end GlueVerif.Lemmas.C06
